@@ -140,12 +140,29 @@ def body_batch(case, rec):
             **rx.mode_for(style),
         ).fit([r.copy() for r in rules], invert=case["invert"])
 
-    got = run(case["entry_jobs"], case["rule_jobs"])
+    if case.get("prefilter"):
+        # a pre-filter engine may reject an input with an exception of its own (turbo: "min() iterable argument is
+        # empty" on some substrate/rule pairs); that is not this property's business as long as the parallel run and
+        # the serial run of the same configuration behave alike
+        outcome = []
+        for ej, rj in ((case["entry_jobs"], case["rule_jobs"]), (1, 1)):
+            try:
+                outcome.append(("ok", run(ej, rj)))
+            except Exception as exc:  # noqa: BLE001
+                outcome.append(("raised", type(exc).__name__))
+        if outcome[0][0] == "raised" or outcome[1][0] == "raised":
+            rec.label(f"prefilter={case['prefilter']}:raises")
+            if outcome[0][0] != outcome[1][0]:
+                raise Violation("batch:parallel-vs-serial", f"pre_filter_engine={case['prefilter']}: parallel run {outcome[0][0]} ({outcome[0][1] if outcome[0][0] == 'raised' else 'results'}), serial run {outcome[1][0]}")
+            return
+        got, serial_ref = outcome[0][1], outcome[1][1]
+    else:
+        got = run(case["entry_jobs"], case["rule_jobs"])
     rec.show(dict(entries=[s[:60] for s in subs], templates=case["templates"], config={k: case.get(k) for k in ("cache", "cache_max", "entry_jobs", "rule_jobs", "strategy", "invert", "prefilter")}))
     if case.get("prefilter"):
         # with a rule pre-filter the reference is the SAME configuration run serially: the number of workers must
         # not matter (whether the filter itself keeps every applicable rule is not part of this property)
-        serial = run(1, 1)
+        serial = serial_ref
         rec.label(f"prefilter={case['prefilter']}")
         key = "syn_bw" if case["invert"] else "syn_fw"
         rec.nt(len({tuple(r.get(key, [])) for r in serial if r.get(key)}) >= 2)
